@@ -291,9 +291,39 @@ def radius_extremes(ck):
                                 case={'d': d}, expected=repr(exp), observed=repr(obs), driver='radius')
 
 
+def reparse_after_edits(ck):
+    """the result of parse_path belongs to the caller: editing it in place (through the list interface, the start / end setters or a segment attribute) must not
+    leak into what a later parse of the same text returns - by any entry point (parse_path with and without current_pos, Path(d), Path(d, ...))"""
+    texts = ['M 1,2 L 4,6 L 8,2 Z', 'M0,0 C 1,2 3,2 4,0 S 7,-2 8,0', 'm 3 3 q 2 4 4 0 t 4 0 a 3 2 20 0 1 5 1', 'M 2,2 h 5 v 5 H 2 z m 10 0 l 3 3']
+    edits = [('append', lambda q: q.append(sp.Line(q.end, q.end + 5))), ('del last', lambda q: q.__delitem__(-1)), ('del first', lambda q: q.__delitem__(0)),
+             ('setitem', lambda q: q.__setitem__(0, sp.Line(q[0].start, q[0].end + 1j))), ('insert', lambda q: q.insert(1, sp.Line(q[0].end, q[1].start))),
+             ('start=', lambda q: setattr(q, 'start', q.start - 3)), ('segment attribute', lambda q: setattr(q[0], 'end', q[0].end + 2j)), ('reverse', lambda q: q.reverse())]
+    entries = [('parse_path', lambda d: sp.parse_path(d)), ('parse_path(current_pos=0j)', lambda d: sp.parse_path(d, 0j)), ('Path(d)', lambda d: sp.Path(d))]
+    for d in texts:
+        want = repr(sp.parse_path(d + ' '))      # another spelling of the same data
+        for en, ef in entries:
+            for ed_name, ed in edits:
+                ck.case(fp=('reparse', d, en, ed_name), nontrivial=True)
+                try:
+                    first = ef(d)
+                    before = repr(first)
+                    ed(first)
+                    second = ef(d)
+                    third = sp.parse_path(d)
+                    ok = before == want and repr(second) == want and repr(third) == want
+                    got = repr(second)
+                except Exception as e:      # noqa
+                    ok, got = False, repr(e)
+                if not ok:
+                    ck.disagree(key='parse_path/result-depends-on-an-earlier-result-being-edited', site='svgpathtools/parser.py:parse_path / Path._parse_path',
+                                what='%s(%r), %s on the result, %s(%r) again: %s' % (en, d, ed_name, en, d, got), case={'d': d, 'entry': en, 'edit': ed_name},
+                                expected=want, observed=got, driver='history')
+
+
 def run(ck):
     rnd = random.Random(ck.seed)
     radius_extremes(ck)
+    reparse_after_edits(ck)
     quick = ck.tier == 'quick'
     ck.rules.append('G: every terminal behaviour of PathData.tla (program over the 20 letters with explicit '
                     'arguments + expected segments) rendered in >=2 spellings and parsed by the real parse_path; '
